@@ -345,6 +345,36 @@ def repeated_operand_family(full=False):
     return out
 
 
+def unary_chain_family(full=False):
+    """Targeted family 'long chains of unary gates': c1 = U1(x0), c2 = U2(c1), ..., cL = UL(c(L-1)) for L = 2..6
+    (thorough: ..8), with the type patterns all-NOT, NOT/LNOT/RNOT cycling, all-IFF, IFF/LIFF/RIFF cycling and
+    NOT/IFF mixed; the chain is tapped in several ways - only the end is an output, every member is an output
+    (both orders), the end plus consumers AND(c_i, c_j) / XOR(c1, cL) of inner members - and stored as written or
+    reversed.  MergeUnaryOperators keeps links 'odd / even number of negations away'; a wrong link only shows
+    from the fourth negation on, which random circuits of <= 8 gates rarely contain.
+    Returns [(net, primary)] like repeated_operand_family."""
+    out = []
+    pats = {'not': ['NOT'], 'neg': ['NOT', 'LNOT', 'RNOT'], 'iff': ['IFF'], 'buf': ['IFF', 'LIFF', 'RIFF'],
+            'mixed': ['NOT', 'IFF', 'LNOT', 'NOT', 'RIFF']}
+    for L in range(2, 9 if full else 7):
+        for pname, pat in pats.items():
+            ins = ['x0', 'x1']
+            gl, prev = [], 'x0'
+            for i in range(L):
+                t = pat[i % len(pat)]
+                ops = (prev,) if t in ('NOT', 'IFF') else ((prev, 'x1') if t[0] == 'L' else ('x1', prev))
+                gl.append((f'c{i + 1}', (t, ops)))
+                prev = f'c{i + 1}'
+            ch = [g for g, _ in gl]
+            cons = gl + [('k0', ('AND', (ch[0], ch[-1]))), ('k1', ('XOR', (ch[L // 2], ch[-1]))), ('k2', ('OR', (ch[-2], 'x1')))]
+            cases = [(gl, [ch[-1]]), (gl, ch), (gl, ch[::-1]), (gl, [ch[-1], ch[L // 2]]),
+                     (cons, ['k0', 'k1', 'k2']), (cons, ['k1', ch[-1]])]
+            for j, (g, outs) in enumerate(cases):
+                for rev in (False, True):
+                    out.append((_fam_net(ins, g, outs, rev), full or (not rev and j in (0, 1, 4))))
+    return out
+
+
 # ------------------------------------------------------------------ snapshots / predicates ----------
 def full_state(net):
     """Everything that 'argument unmodified' compares: inputs, outputs, gates incl. storage order, users index, blocks."""
@@ -588,9 +618,11 @@ def work_list(quick, prop):
         chunks.append(('enum', 1, 2, 'REDUCED', 'core', 0, 1))
         chunks.append(('enum', 2, 2, 'REDUCED-2v', 'core', 0, 1))
         chunks.append(('family', 'repeated-operands', 'core+more', False))
+        chunks.append(('family', 'unary-chains', 'core+more', False))
         chunks.append(('rand', 0, 1200, 4, 8, 'all'))
     else:
         chunks.append(('family', 'repeated-operands', 'all', True))
+        chunks.append(('family', 'unary-chains', 'all', True))
         for n_in, k in ((0, 1), (0, 2), (1, 0), (1, 1), (2, 0), (2, 1)):
             chunks.append(('enum', n_in, k, 'FULL', 'all', 0, 1))
         parts = 32
@@ -627,7 +659,7 @@ def chunk_items(chunk, prop):
     elif chunk[0] == 'family':
         _, _fam, pset, full = chunk
         pipes = {'core': core, 'core+more': core + more, 'all': core + more + tho}[pset]
-        for net, primary in repeated_operand_family(full):
+        for net, primary in (unary_chain_family(full) if _fam == 'unary-chains' else repeated_operand_family(full)):
             yield net, (pipes if primary else core)
     else:
         _, start, count, max_in, max_g, pset = chunk
